@@ -633,7 +633,7 @@ def manhattan(A, B):
     return np.abs(A[:, None, :] - B[None, :, :]).sum(axis=2)
 
 
-def make_strategy(name, mgr_kind, b, seed, ffb=False, small_window=True, default_mgr=False, metric=None):
+def make_strategy(name, mgr_kind, b, seed, ffb=False, small_window=True, default_mgr=False, metric=None, dist_dict=None):
     from skactiveml import stream
 
     cls = getattr(stream, name)
@@ -654,6 +654,10 @@ def make_strategy(name, mgr_kind, b, seed, ffb=False, small_window=True, default
         kw["dist_func"] = manhattan
         if small_window:
             kw["window_size"] = 3
+    if dist_dict is not None and "dist_func" in kw:
+        # the library's own distance function, configured through `dist_func_dict` (query and update must use the same one)
+        del kw["dist_func"]
+        kw["dist_func_dict"] = dict(dist_dict)
     if name == "StreamProbabilisticAL" and metric is not None:
         kw["metric"] = metric
         kw["metric_dict"] = {"gamma": 0.5}
